@@ -1,6 +1,10 @@
 """C38 — exceptions raised by data propagate as the same object and leave the
 environment usable.
 
+Probe data objects additionally count every attribute lookup by name that the
+engine itself makes on them (jinja_pass_arg, __html__, __call__, __aiter__,
+unsafe_callable, alters_data, __class__ ...: events "probe:<name>").
+
 Probe data objects count every call / __next__ / attribute / item / __str__
 (+ __html__ / __iter__ / __len__ / __bool__ / async call body / __aiter__ /
 __anext__) event of a clean render (N events); then for every k <= N the same
@@ -30,7 +34,13 @@ RULE = ("case = environment (sync or async, autoescape on/off) with 3 generated 
         "probe iterables incl. loop.length/last, calls, string conversion, __html__, truth tests, "
         "sort/map/sum/groupby/selectattr/join/min/max/unique with attribute arguments, iterator "
         "filters, tests, macros, call blocks, set/filter blocks, include, import, with, recursive "
-        "loops, extends+super+self.block, str.format/__format__ conversion; async: awaited "
+        "loops, extends+super+self.block, str.format/__format__ conversion; every probe class also "
+        "reports each attribute lookup by name made ON it that is not one of the template's own field "
+        "names (instrumented __getattribute__: the engine's feature probes jinja_pass_arg / __call__ on "
+        "called objects, __html__ on printed / escaped / joined values, __aiter__ / __anext__ / "
+        "__getitem__ checks, isinstance()'s __class__, and in the 25% SANDBOXED environments "
+        "unsafe_callable / alters_data) as events probe:<name>, fault points like all others (quick: "
+        "the __class__ lookups sampled 1 in 4); async: awaited "
         "callables, async iterables; MODULE-BODY fragments: import / from-import / include without "
         "context (incl. name list + ignore missing) / include of an importing template, of generated "
         "templates glib.j2 / incg.j2 whose top-level body calls / reads / iterates / str-converts "
@@ -87,7 +97,8 @@ RULE = ("case = environment (sync or async, autoescape on/off) with 3 generated 
         "distinct = (target source + recipe + i18n hash, API, k, fresh?) whose fault actually fired")
 TECHNIQUE = "probe-counted exhaustive fault injection with exception-identity and re-render oracle"
 LEVEL_TEXT = ("held on every enumerated fault point of the generated templates (each data event "
-              "of each clean run, one API per point in quick, all APIs in thorough); state that "
+              "of each clean run incl. the engine's own attribute lookups on the data objects, one API per point and "
+              "isinstance __class__ lookups sampled 1 in 4 in quick, all points and APIs in thorough); state that "
               "outlives a render is observed through eval-context sensitive sentinel macros in the "
               "cached modules, whose sensitivity is self-checked per case")
 ASSUMPTIONS = [
@@ -96,8 +107,14 @@ ASSUMPTIONS = [
     "injected)",
     "events on the subjects of capability tests (`is sequence`, `is iterable`) may either "
     "propagate the same object or be reported as false (documented exception)",
-    "engine-internal feature probing of data objects (dunder / jinja_* attribute lookups) is not "
-    "a data event",
+    "every attribute lookup by name that reaches a data object's __getattribute__ while a render is "
+    "in progress - the engine's own feature probing (jinja_pass_arg, __html__, __call__, __aiter__, "
+    "__getitem__, the sandbox's unsafe_callable / alters_data, isinstance()'s __class__ lookup ...) as "
+    "much as the attributes a template names - is an access to data: the private exception raised there "
+    "must come out unchanged (it is not an AttributeError, so no documented lookup signal applies); only "
+    "on the subjects of capability tests it may instead be reported as false. The interpreter's implicit "
+    "special-method lookups (str(), iter(), len(), calls) go to the type and are covered by the events "
+    "inside those methods",
     "probes reachable without a render context (environment globals g_*, the installed gettext "
     "callables and the lazy messages they return) are data in the sense of the statement; calls of "
     "the gettext callables are fault points too",
@@ -150,7 +167,20 @@ FLOORS = {
                            "faults_in_deferred_macro_or_call_block_of_cached_module_sync": 90,
                            "faults_in_deferred_macro_or_call_block_of_cached_module_async": 40,
                            **{"deferred_via:" + c: 8 for c in DEFERRED_CHANNELS},
-                           **{"deferred_defined_in:" + c: 8 for c in DEFERRED_NESTINGS}}},
+                           **{"deferred_defined_in:" + c: 8 for c in DEFERRED_NESTINGS},
+                           # engine-initiated attribute lookups on data objects as fault points
+                           # (5.6k / 890 / 930 / 1.8k / 1.5k / 3.9k / 186 / 187 in a quick run at load)
+                           "faults_at_engine_initiated_attribute_probe": 1200,
+                           "faults_at_engine_initiated_attribute_probe_sync": 600,
+                           "faults_at_engine_initiated_attribute_probe_async": 450,
+                           "fault_event:probe:jinja_pass_arg": 200,
+                           "fault_event:probe:__html__": 200,
+                           "fault_event:probe:__call__": 400,
+                           "fault_event:probe:__class__": 300,
+                           "fault_event:probe:__aiter__": 5,
+                           "cases_sandboxed": 4, "faults_in_sandboxed_environment": 800,
+                           "fault_event:probe:unsafe_callable": 40,
+                           "fault_event:probe:alters_data": 40}},
     "thorough": {"evaluations": 170000, "distinct": 170000,
                  "counters": {"faults_fired": 170000, "identity_checks": 170000,
                               "post_fault_renders": 500000, "cases": 500,
@@ -175,7 +205,18 @@ FLOORS = {
                               "faults_in_deferred_macro_or_call_block_of_cached_module_sync": 3400,
                               "faults_in_deferred_macro_or_call_block_of_cached_module_async": 2700,
                               **{"deferred_via:" + c: 800 for c in DEFERRED_CHANNELS},
-                              **{"deferred_defined_in:" + c: 600 for c in DEFERRED_NESTINGS}}},
+                              **{"deferred_defined_in:" + c: 600 for c in DEFERRED_NESTINGS},
+                              "faults_at_engine_initiated_attribute_probe": 60000,
+                              "faults_at_engine_initiated_attribute_probe_sync": 30000,
+                              "faults_at_engine_initiated_attribute_probe_async": 22000,
+                              "fault_event:probe:jinja_pass_arg": 8000,
+                              "fault_event:probe:__html__": 8000,
+                              "fault_event:probe:__call__": 16000,
+                              "fault_event:probe:__class__": 20000,
+                              "fault_event:probe:__aiter__": 150,
+                              "cases_sandboxed": 60, "faults_in_sandboxed_environment": 30000,
+                              "fault_event:probe:unsafe_callable": 1500,
+                              "fault_event:probe:alters_data": 1500}},
 }
 
 SYNC_APIS = ["render", "generate", "stream"]
@@ -206,7 +247,7 @@ def _mem_cache(case):
 
     i18n = case.get("i18n")
     sig = (bool(case["is_async"]), bool(case["autoescape"]), bool(i18n),
-           bool(i18n and i18n["newstyle"]))
+           bool(i18n and i18n["newstyle"]), bool(case.get("sandbox")))
     if sig not in _BCC:
         _BCC[sig] = Mem()
     return _BCC[sig]
@@ -215,7 +256,12 @@ def _mem_cache(case):
 class CaseEnv:
     def __init__(self, case, recipe, loop):
         from jinja2 import DictLoader, Environment
+        from jinja2.sandbox import SandboxedEnvironment
 
+        if case.get("sandbox"):
+            # the sandbox asks every object a template calls / reads for more (unsafe_callable,
+            # alters_data, ...): engine-initiated attribute probes, fault points like the others
+            Environment = SandboxedEnvironment
         self.case = case
         self.recipe = recipe
         self.loop = loop
@@ -315,6 +361,13 @@ def check_fault(ctx, ce, clean, target, api, k, fresh=False):
         return
     ctx.count("faults_fired")
     ctx.count("faults_async" if ce.is_async else "faults_sync")
+    if case.get("sandbox"):
+        ctx.count("faults_in_sandboxed_environment")
+    if ev.fired_kind.startswith("probe:"):
+        # the event is an attribute lookup the ENGINE made on the data object (feature probing)
+        ctx.count("faults_at_engine_initiated_attribute_probe")
+        ctx.count("faults_at_engine_initiated_attribute_probe_"
+                  + ("async" if ce.is_async else "sync"))
     if fresh:
         ctx.count("faults_fresh_env")
         if str(ev.fired_label).startswith("mod:"):
@@ -486,7 +539,7 @@ def run_case(ctx, case, recipe, quick, loop):
         return
     if not sentinel_self_check(ctx, ce):
         return
-    clean, nev = {}, {}
+    clean, nev, kinds_at = {}, {}, {}
     targets = post_targets(case)
     for name in targets + list(case.get("probes", [])):
         outs = []
@@ -496,6 +549,7 @@ def run_case(ctx, case, recipe, quick, loop):
                 ctx.count("case_rejected_clean_raises:" + type(val).__name__)
                 return
             outs.append((val, ev.n))
+            kinds_at[name] = [t[0] for t in ev.trace]
             for kk, c in ev.kinds.items():
                 ctx.count("clean_event:" + kk, c)
         if len({o for o in outs}) != 1:
@@ -518,6 +572,8 @@ def run_case(ctx, case, recipe, quick, loop):
             return
     ctx.count("cases")
     ctx.count("cases_async" if ce.is_async else "cases_sync")
+    if case.get("sandbox"):
+        ctx.count("cases_sandboxed")
     if case.get("modcalls"):
         ctx.count("cases_with_module_api_target")
     if len(ctx.samples) < 3:
@@ -530,6 +586,12 @@ def run_case(ctx, case, recipe, quick, loop):
         N = nev[target]
         apis = apis_of(ce, target)
         for k in range(1, N + 1):
+            if quick and k % 4 and k <= len(kinds_at[target]) and \
+                    kinds_at[target][k - 1] == "probe:__class__":
+                # quick: the __class__ lookups of isinstance() (by far the most frequent
+                # engine-side lookup, above all in the sandbox) are sampled 1 in 4
+                ctx.count("quick_skipped_isinstance_class_lookup_points")
+                continue
             if quick and len(apis) > 1:
                 # one API per fault point, rotating; the asyncio.run wrapper is slow: 1 in 6
                 if ce.is_async:
@@ -599,6 +661,7 @@ def run(ctx):
             is_async = (i + ctx.shard) % 2 == 1
             case = GEN.gen_case(rng, is_async)
             recipe = P.gen_recipe(rng)
+            case["sandbox"] = (i // 2 + ctx.shard // 2) % 4 == 3
             run_case(ctx, case, recipe, quick, loop)
             i += 1
     finally:
